@@ -106,13 +106,15 @@ def gen_sources(ctx, nparts, thorough, tag):
     parts = [I[k::nparts] for k in range(nparts)]
     srcs = []
     for k, part in enumerate(parts):
+        if tag == "san" and not thorough and k % 2 == 1:
+            part = []          # quick: the sanitizer variant covers every second group of instantiations
         L = ['#include "c14_impl.hh"', "namespace c14 {", "const std::vector<Entry>& tab_%d() {" % k, "  static const std::vector<Entry> t = {"]
         pre = []
         for n, (t, p) in enumerate(part):
             X = "X%d_%d" % (k, n)
             pre.append("using %s = %s;" % (X, ctype(t, p)))
             nm = iname(t, p)
-            L.append('    {"ext/%s", &run_ext<%s>}, {"map/%s", &run_map<%s>},' % (nm, X, nm, X))
+            L.append('    {"ext/%s", &run_ext<%s>}, {"map/%s", &run_map<%s>}, {"swp/%s", &run_swp<%s>},' % (nm, X, nm, X, nm, X))
             for l in "LRS":
                 L.append('    {"mds/%s/%s", &run_mds<%s, %s>},' % (l, nm, LAYC[l], X))
             for l in "LR":
@@ -172,6 +174,11 @@ def gen_sources(ctx, nparts, thorough, tag):
         stub = os.path.join(gd, "probe%d_stub.cc" % pn)
         open(stub, "w").write('#include "c14_impl.hh"\nnamespace c14 { std::string probe%d(const Case&) { return "NOCOMPILE"; } }\n' % pn)
         probes[pn] = (src, stub)
+    src = os.path.join(gd, "probe6.cc")
+    open(src, "w").write('#include "c14_probes.hh"\nnamespace c14 { std::string probe6(const Case& c) { return run_p6crit<long>(c); } }\n')
+    stub = os.path.join(gd, "probe6_stub.cc")
+    open(stub, "w").write('#include "c14_impl.hh"\nnamespace c14 { std::string probe6(const Case&) { return "NOCOMPILE"; } }\n')
+    probes[6] = (src, stub)
     return srcs, probes
 
 
@@ -306,6 +313,18 @@ def gen(ctx, I, PI):
                 base = rng.choice([0, 0, 1, 4])
                 for l in ("LRS" if kd in ("perm", "pad") else rng.choice(["L", "R"])):
                     cases.append("mds %s lay=%s E=%s S=%s base=%d" % (nm, l, lst(E), lst(S), base))
+            if n < (2 if quick else 6):
+                # swap / copy-assign / move-assign between two views/arrays with different mappings
+                E2 = Es[(n + 1) % len(Es)] if len(Es) > 1 else E
+                if len(Es) > 2 and prod(E2) == prod(E) == 0:
+                    E2 = Es[(n + 2) % len(Es)]
+                S1 = unique_strides(rng, E, "perm" if n % 2 else "pad")
+                S2 = unique_strides(rng, E2, "pad")
+                if S2 == S1 and E2 == E and len(E) > 0:
+                    S2 = [x * 3 for x in unique_strides(rng, E2, "perm")]
+                if all(fits(t, v) for v in (rss_stride(E, S1), rss_stride(E2, S2))) and max(rss_stride(E, S1), rss_stride(E2, S2)) < 3000:
+                    for f in ("swap", "copy", "move"):
+                        cases.append("swp %s f=%s E=%s S=%s E2=%s S2=%s base=%d base2=%d" % (nm, f, lst(E), lst(S1), lst(E2), lst(S2), rng.choice([0, 1, 5]), rng.choice([0, 2, 7])))
             ks = MDA_KINDS if n == 0 else rng.sample(MDA_KINDS, 2 if quick else 5)
             for l in "LR":
                 for k in ks:
@@ -370,6 +389,8 @@ def gen(ctx, I, PI):
     for t in "iuls":
         for l in "LR":
             cases.append("p5r0 %s:- lay=%s E=- S=-" % (t, l))
+    for ln in (0, 1, 3, 6):
+        cases.append("p6crit - n=%d o=%d len=%d" % (ln + 4, 1, ln))
     # span
     for x, lens in (("d", [0, 1, 3, 4, 7]), ("dc", [0, 4]), ("dv", [0, 5]), ("di", [0, 6]), ("0", [0]), ("1", [1]), ("3", [3]), ("4", [4]), ("7", [7]), ("a5", [5]), ("c4", [4])):
         for ln in lens:
@@ -378,7 +399,7 @@ def gen(ctx, I, PI):
             if x in ("a5", "c4"):
                 n = ln
             hd = "span - x=%s n=%d o=%d len=%d" % (x, n, o, ln)
-            for f in ("desc", "iter", "conv"):
+            for f in ("desc", "iter", "conv", "asg"):
                 cases.append("%s f=%s" % (hd, f))
             for c in range(ln + 1):
                 cases.append("%s f=first a=%d" % (hd, c)); cases.append("%s f=last a=%d" % (hd, c))
@@ -603,6 +624,60 @@ def oracle(case, impl, model):
         if v != src:
             return "copy", "array elements %s, view elements %s" % (v, src)
         return None
+    if op == "swp":
+        f = cd["f"]
+        E2, S2, base2 = il(cd.get("E2")), il(cd.get("S2")), int(cd.get("base2", "0"))
+        rk, rd = len(E), inst.split(":")[1].split(",").count("d")
+        for sct in impl.split(" | "):
+            tag, _, rest = sct.strip().partition(" ")
+            parts = [x.strip() for x in rest.split(" ; ")]
+            if len(parts) != 3:
+                return tag, "unparsable: %s" % sct[:100]
+            da, db, dq = kvs(parts[0]), (None if parts[1] == "b -" else kvs(parts[1])), kvs(parts[2])
+            lay = tag[-1]
+            def strides(EE, SS):
+                return strides_left(EE) if lay == "L" else strides_right(EE) if lay == "R" else SS
+            # what the two objects must designate after the operation
+            second = (base2, E2, S2)
+            first = (base, E, S)
+            want_a = second
+            want_b = first if f == "swap" else second
+            for nmx, d, (bb, EE, SS) in (("first", da, want_a), ("second", db, want_b)):
+                if d is None:
+                    continue
+                st = strides(EE, SS)
+                TT = tuples(EE)
+                if il(d.get("ext")) != EE:
+                    return tag, "%s after %s: %s object has extents %s, expected %s" % (tag, f, nmx, d.get("ext"), EE)
+                if rk > 0 and il(d.get("st")) != st:
+                    return tag, "%s after %s: %s object reports strides %s, expected %s" % (tag, f, nmx, d.get("st"), st)
+                if d.get("size") != str(prod(EE)) or d.get("empty") != ("1" if prod(EE) == 0 else "0"):
+                    return tag, "%s after %s: size/empty %s/%s" % (tag, f, d.get("size"), d.get("empty"))
+                if tag in ("L", "R", "S"):
+                    rss = prod(EE) if lay in "LR" else rss_stride(EE, SS)
+                    if d.get("rss") != str(rss):
+                        return tag, "%s after %s: %s view required_span_size %s, expected %d" % (tag, f, nmx, d.get("rss"), rss)
+                    want = [bb + dot(i, st) for i in TT]
+                    if il(d.get("p")) != want:
+                        return tag, "%s after %s: %s view accesses storage positions %s, its mapping designates %s" % (tag, f, nmx, d.get("p"), want)
+                    if d.get("acc") != "1":
+                        return tag, "accessor()/data_handle()/mapping() observers disagree with operator[]"
+                else:
+                    v0 = 8000 if (nmx == "first" or f != "swap") else 7000
+                    if il(d.get("v")) != [v0 + q for q in range(len(TT))] or d.get("cs") != str(prod(EE)):
+                        return tag, "%s after %s: %s array holds %s (container size %s)" % (tag, f, nmx, d.get("v"), d.get("cs"))
+            if tag in ("L", "R", "S"):
+                eq0 = (E == E2) and (lay != "S" or rk == 0 or S == S2)
+                exp = {"eq0": "1" if eq0 else "0", "ne": "1", "asg": "1", "dz": "1", "uni": "1", "str": "1", "au": "1", "ae": "0" if lay == "S" else "1",
+                       "as": "1", "rank": str(rk), "rd": str(rd), "sr": "1"}
+            else:
+                eq0 = (E == E2) and prod(E) == 0
+                exp = {"eq0": "1" if eq0 else "0", "eqc": "1", "ex": "1", "ptr": "1", "uni": "1", "exh": "1", "str": "1", "au": "1", "ae": "1", "as": "1",
+                       "rank": str(rk), "rd": str(rd)}
+            for k, v in exp.items():
+                if dq.get(k) != v:
+                    return tag, "%s: observer/operator '%s' gives %s, expected %s" % (tag, k, dq.get(k), v)
+        return None
     if op == "xcv":
         secs = [x.strip() for x in impl.split(" | ")]
         d0 = kvs(secs[0])
@@ -629,6 +704,8 @@ def oracle(case, impl, model):
                 if il(d.get("v")) != [7000 + q for q in range(len(T))] or d.get("cs") != str(prod(E)):
                     return tag, "%s: converted array elements %s (container size %s)" % (tag, d.get("v"), d.get("cs"))
         return None
+    if op == "p6crit":
+        return None if impl == model else ("crit", "span::crbegin()/crend(): %s, reversed sequence is %s" % (impl, model))
     if op == "p4eq":
         return None if impl == model else ("eq", "operator== : %s, expected %s" % (impl, model))
     if op == "span":
@@ -639,6 +716,8 @@ def oracle(case, impl, model):
 def sig_of(case, aspect):
     op, inst, cd = parse_case(case)
     lay = cd.get("lay", cd.get("x", ""))
+    if op == "swp":
+        lay = cd.get("f", "")
     if op == "xcv":
         ps, pd = [x.split(":")[1] for x in inst.split(">")]
         nd = lambda q: q.split(",").count("d")
@@ -708,13 +787,16 @@ def run(ctx):
     try:
         impl_san, _ = san_future.result()
         ctx.log("sanitizer variant built")
-        sub = [i for i, c in enumerate(cases) if c.split()[0] in ("mds", "mda", "mdasa", "mdafs", "span", "p1fs", "p2conv", "p3alloc")]
+        sub = [i for i, c in enumerate(cases) if c.split()[0] in ("mds", "mda", "mdasa", "mdafs", "span", "swp", "p1fs", "p2conv", "p3alloc")]
         if ctx.quick:
             sub = sub[::3]
         so = V.run_cases(ctx, [impl_san], [cases[i] for i in sub], tag="san", timeout=300 if ctx.quick else 1200,
                          env={"ASAN_OPTIONS": "detect_leaks=0"})
         nsan = len(sub)
         for j, i in enumerate(sub):
+            if j < len(so) and so[j].startswith("NO-INSTANCE"):
+                nsan -= 1
+                continue
             if j < len(so) and so[j] != io[i]:
                 ctx.violation(sig_of(cases[i], "sanitizer"), {"case": cases[i], "impl": io[i][:2000], "impl_sanitized_build": so[j][:2000],
                                                               "oracle": "ASan/UBSan build aborts or behaves differently (access outside the storage / UB)"})
